@@ -1,6 +1,6 @@
 """C02 / C16 / C18 — Batcher::{enqueue, flush, end} and NetworkMessage::{new_single,new_batch,sender}
 (src/block/batcher.rs, src/network/mod.rs) against the view equation  all = sent ++ pending."""
-import os, sys
+import os, re, sys
 sys.path.insert(0, os.path.dirname(os.path.dirname(__file__)))
 import std_specs as S
 import shared as SH
@@ -132,17 +132,23 @@ def build(x):
             (old(self).mode matches BatchMode::Adaptive(n, d) ==> final(self).buffer@.len() < n.val() || final(self).buffer@.len() == 0), // #obl:enqueue.adaptive_flushes_full_batch
             (old(self).mode matches BatchMode::Adaptive(n, d) ==> (timed_out(old(self).last_send, d) ==> final(self).buffer@.len() == 0)), // #obl:enqueue.adaptive_flushes_on_timeout
 ''')
-    enq.insert_before('self.remote_sender.send(message).unwrap();', 'proof { lemma_flat_push(self.remote_sender.log(), message); }\n                ')
+    _m = re.search(r'self\.remote_sender\.send\((\w+)\)\.unwrap\(\);', enq.text)
+    _n = _m.group(1) if _m else 'message'
+    enq.insert_before(re.compile(r'self\.remote_sender\.send\(\w+\)\.unwrap\(\);'), 'proof { lemma_flat_push(self.remote_sender.log(), ' + _n + '); }\n                ')
     fl = x.method(FB, 'Batcher', 'flush')
     fl.add_spec('''        ensures ''' + SH.BATCHER_FLUSH_ENSURES + ''',           // #obl:flush.sends_everything_pending_in_order
             final(self).same_link(old(self)),                                   // #obl:flush.link_frame
             final(self).log_step(old(self)),                                    // #obl:flush.one_whole_batch
 ''')
-    fl.insert_before('self.remote_sender.send(message).unwrap();', 'proof { lemma_flat_push(self.remote_sender.log(), message); }\n            ')
+    _m = re.search(r'self\.remote_sender\.send\((\w+)\)\.unwrap\(\);', fl.text)
+    _n = _m.group(1) if _m else 'message'
+    fl.insert_before(re.compile(r'self\.remote_sender\.send\(\w+\)\.unwrap\(\);'), 'proof { lemma_flat_push(self.remote_sender.log(), ' + _n + '); }\n            ')
     en = x.method(FB, 'Batcher', 'end')
     en.sub('V-SUBST', r'\bself\.', 'self_.', detail='alpha-renaming after `let mut self_ = self;` so that the R-CHAN model of send (&mut self) applies (Verus: no `mut self`)')
     en.insert_at_body_start('\n        let mut self_ = self;\n        let ghost all0 = self_.all();\n')
-    en.insert_before('self_.remote_sender.send(message).unwrap();', 'proof { lemma_flat_push(self_.remote_sender.log(), message); }\n            ')
+    _m = re.search(r'self_\.remote_sender\.send\((\w+)\)\.unwrap\(\);', en.text)
+    _n = _m.group(1) if _m else 'message'
+    en.insert_before(re.compile(r'self_\.remote_sender\.send\(\w+\)\.unwrap\(\);'), 'proof { lemma_flat_push(self_.remote_sender.log(), ' + _n + '); }\n            ')
     # the effect of `end` (self is consumed) is stated as an obligation at the end of its body
     src = en.text
     last = src.rstrip().rfind('}')
